@@ -184,7 +184,9 @@ func ruleSwapOrder(c *Ctx) {
 		{"write-new-file", find1("write", callPred(func(f *types.Func, call *ast.CallExpr) bool { return isFileMethod(f, "Write") && !onAOF(call) }))},
 		{"sync-new-file", find1("sync", callPred(func(f *types.Func, call *ast.CallExpr) bool { return isFileMethod(f, "Sync") && !onAOF(call) }))},
 		{"close-live", find1("close", callPred(func(f *types.Func, call *ast.CallExpr) bool { return isFileMethod(f, "Close") && onAOF(call) }))},
-		{"close-new", find1("close2", callPred(func(f *types.Func, call *ast.CallExpr) bool { return isFileMethod(f, "Close") && !onAOF(call) && call.Pos() > lit.Pos() }))},
+		{"close-new", find1("close2", callPred(func(f *types.Func, call *ast.CallExpr) bool {
+			return isFileMethod(f, "Close") && !onAOF(call) && call.Pos() > lit.Pos()
+		}))},
 		{"rename-shrink-to-live", find1("rename", callPred(func(f *types.Func, call *ast.CallExpr) bool {
 			return isFunc(f, "os", "Rename") && len(call.Args) == 2 && isShrinkPath(call.Args[0]) && isLivePath(call.Args[1])
 		}))},
